@@ -45,22 +45,29 @@ HeaderDecides(req) == req.upgrade = "websocket" \/ req.ping \/ FromFetchDest(req
 CONSTANTS BlockedTypes,     \* subset of Types \ {"document"}
           DocException      \* BOOLEAN
 Blocks(t) == t \in BlockedTypes
+\* the cosmetic option of the page's verdict, as the number the content-script URL carries (generic CSS 1, CSS 2, JS 4):
+\* everything, nothing under the $document exception, and - in the part of the site that has an $elemhide exception of
+\* its own (area "nocss") - scripts only.  Exceptions of this kind apply to document requests only.
+Areas == {"main", "nocss"}
+Option(t, area) == IF t # "document" THEN 7 ELSE IF DocException THEN 0 ELSE IF area = "nocss" THEN 4 ELSE 7
 CosmeticOff(t) == DocException /\ t = "document"
 
 StaticTypes == {"image", "font", "script", "stylesheet", "media"}
 SuppressCache(t) == t \notin StaticTypes                                   \* SuppressWindowForever
 
-Requests == [upgrade : Upgrades, ping : BOOLEAN, fetchDest : FetchDests, accept : Accepts, ext : Exts, cond : BOOLEAN]
+Requests == [upgrade : Upgrades, ping : BOOLEAN, fetchDest : FetchDests, accept : Accepts, ext : Exts, cond : BOOLEAN, area : Areas]
 
 (* ---- the function the conformance harness replays: the whole exchange at once ---- *)
 Outcome(q, ct) ==
     LET t1 == AssumeType(q, Absent) t2 == AssumeType(q, ct) IN
-    IF Blocks(t1) THEN [type1 |-> t1, type2 |-> "-", origin |-> FALSE, cond |-> FALSE, status |-> 500, body |-> "blockpage"]
-    ELSE IF t1 = "websocket" THEN [type1 |-> t1, type2 |-> "-", origin |-> TRUE, cond |-> q.cond /\ ~SuppressCache(t1), status |-> 101, body |-> "tunnel"]
+    IF Blocks(t1) THEN [type1 |-> t1, type2 |-> "-", origin |-> FALSE, cond |-> FALSE, status |-> 500, body |-> "blockpage", option |-> 0]
+    ELSE IF t1 = "websocket" THEN [type1 |-> t1, type2 |-> "-", origin |-> TRUE, cond |-> q.cond /\ ~SuppressCache(t1), status |-> 101, body |-> "tunnel", option |-> 0]
     ELSE [type1 |-> t1, type2 |-> t2, origin |-> TRUE, cond |-> q.cond /\ ~SuppressCache(t1),
           status |-> IF Blocks(t2) THEN 500 ELSE 200,
           body |-> IF Blocks(t2) THEN "blockpage"
-                   ELSE IF t2 \in {"document", "subdocument"} /\ ~CosmeticOff(t2) THEN "filtered" ELSE "origin"]
+                   ELSE IF t2 \in {"document", "subdocument"} /\ ~CosmeticOff(t2) THEN "filtered" ELSE "origin",
+          \* the option the injected tag names (0: nothing injected)
+          option |-> IF ~Blocks(t2) /\ t2 \in {"document", "subdocument"} /\ ~CosmeticOff(t2) THEN Option(t2, q.area) ELSE 0]
 (* ---- the content script endpoint (contentscript.go buildContentScript) ---- *)
 \* method: "GET" | "POST"; hostname, option, ts: how the query parameter looks; ims: If-Modified-Since present
 \*   hostname: "absent" | "one" | "twice"      (getQueryParameter wants exactly one value)
